@@ -4,9 +4,11 @@ import (
 	"bytes"
 	"context"
 	"crypto/sha256"
+	"encoding/base64"
 	"encoding/hex"
 	"fmt"
 	"io/fs"
+	"net/http"
 	"os"
 	"path/filepath"
 	"sort"
@@ -55,6 +57,16 @@ func Setup(c Case) (*World, error) {
 		h.Feat = rm.Features{MountGrant: true, TagDelete: hc.TagDelete, Referrers: hc.Referrers, TagPage: hc.TagPage,
 			CatalogPage: hc.CatalogPage, HeadNoDigest: hc.HeadNoDigest, ValidateManifest: hc.ValidateManifest}
 		w.Hosts[hc.Name] = h
+		if hc.User != "" {
+			want := "Basic " + base64.StdEncoding.EncodeToString([]byte(hc.User+":"+hc.Pass))
+			h.Intercept = func(m *rm.Model, h *rm.Host, e *rm.Entry, req *http.Request) *rm.Resp {
+				if req.Header.Get("Authorization") == want {
+					return nil
+				}
+				return &rm.Resp{Status: 401, TruncateAt: -1, Body: []byte(`{"errors":[{"code":"UNAUTHORIZED","message":"authentication required"}]}`),
+					Header: http.Header{"Www-Authenticate": {`Basic realm="c19"`}, "Content-Type": {"application/json"}}}
+			}
+		}
 	}
 	w.Hosts[ProbeHost] = w.Model.AddHost(ProbeHost)
 	for _, p := range c.Places {
@@ -103,6 +115,28 @@ func (w *World) Age() error {
 		}
 		return os.Chtimes(p, oldTime, oldTime)
 	})
+}
+
+// Transport is the model as seen by the client of this world: the model itself
+// plus the rate limit headers of hosts that announce one.
+func (w *World) Transport() http.RoundTripper { return worldRT{w} }
+
+type worldRT struct{ w *World }
+
+func (t worldRT) RoundTrip(req *http.Request) (*http.Response, error) {
+	resp, err := t.w.Model.RoundTrip(req)
+	if err != nil || resp == nil {
+		return resp, err
+	}
+	if (req.Method == "GET" || req.Method == "HEAD") && strings.Contains(req.URL.Path, "/manifests/") {
+		for _, hc := range t.w.C.Hosts {
+			if hc.Name == req.URL.Host && hc.RateRemain > 0 {
+				resp.Header.Set("RateLimit-Limit", "100;w=21600")
+				resp.Header.Set("RateLimit-Remaining", fmt.Sprintf("%d;w=21600", hc.RateRemain))
+			}
+		}
+	}
+	return resp, nil
 }
 
 // Close removes the scratch root.
